@@ -66,6 +66,17 @@ type Nil struct{}
 type Stale struct{} // $$ read before assignment in an empty rule
 type Opq struct{ What string }
 
+// ErrV is errors.NewError(msg, pos).
+type ErrV struct{ Args []Val }
+
+func (v ErrV) String() string {
+	var as []string
+	for _, a := range v.Args {
+		as = append(as, a.String())
+	}
+	return "NewError(" + strings.Join(as, ", ") + ")"
+}
+
 // Global is a package-level variable used as a value.
 type Global struct{ Name string }
 
@@ -1029,11 +1040,11 @@ func (in *interp) call(c *ast.CallExpr, s *State) Val {
 		case se.Sel.Name == "GetPosition" && len(c.Args) == 0:
 			return Part{in.eval(se.X, s), "", "Position"}
 		case recv == "errors" && se.Sel.Name == "NewError":
-			var as []string
+			ev := ErrV{}
 			for _, a := range c.Args {
-				as = append(as, in.eval(a, s).String())
+				ev.Args = append(ev.Args, in.eval(a, s))
 			}
-			return Opq{"NewError(" + strings.Join(as, ", ") + ")"}
+			return ev
 		case recv == "strconv" || recv == "bytes" || recv == "strings":
 			var as []string
 			ev := Event{Kind: "call:" + recv + "." + se.Sel.Name, At: c.Pos()}
@@ -1115,6 +1126,9 @@ func (in *interp) assume(e ast.Expr, truth bool, s *State) bool {
 				rest := strings.TrimPrefix(ov.What, "ok:")
 				i := strings.LastIndex(rest, ":")
 				valKey, tn := rest[:i], rest[i+1:]
+				if valKey == "nil" {
+					return !truth // a nil interface never satisfies a type assertion
+				}
 				f := s.Facts[valKey]
 				if f == nil {
 					f = &Fact{}
